@@ -13,7 +13,7 @@ import os
 from collections import Counter
 from pathlib import Path
 
-from .kit import H, Scratch, Trace, short, stream, weighted
+from .kit import pristine, H, Scratch, Trace, short, stream, weighted
 from .gen import schema as S
 from . import parsekit as K
 
@@ -344,7 +344,7 @@ def minimise(v):
     def fails(tree):
         ww = dict(w, tree=tree)
         try:
-            return any(x["signature"] == key for x in check_workload(ww))
+            return any(x["signature"] == key for x in pristine(check_workload, ww))
         except Exception:
             return False
 
@@ -374,7 +374,7 @@ def minimise(v):
 
     shrink(tree)
     out = dict(v, workload=dict(w, tree=tree), minimised=True)
-    vs = [x for x in check_workload(out["workload"]) if x["signature"] == key]
+    vs = [x for x in pristine(check_workload, out["workload"]) if x["signature"] == key]
     if vs:
         out["message"] = vs[0]["message"]
         return out
